@@ -24,8 +24,10 @@ CONSTANTS W,          \* word size of the modelled Duration (Go: 64)
           MaxRound,   \* rounds per behaviour
           FailKinds,  \* subset of {"err", "late", "never"}
           AnyOrder,   \* TRUE: successes arrive in any order; FALSE: by index
-          Canon       \* TRUE: one outcome vector per multiset (sources are
+          Canon,      \* TRUE: one outcome vector per multiset (sources are
                       \* interchangeable: the next state depends on the multiset only)
+          Elapse      \* what the local clock may do during one clk.Sleep call: records
+                      \* [slp, stp] in HALF sync intervals (see "local clock" below)
 
 MP == INSTANCE Midpoint WITH W <- W, Vals <- {}, MaxN <- 0, s <- << >>
 
@@ -109,6 +111,25 @@ Collect(slots, o, ord) ==
 AllSmall(sl) == \A i \in DOMAIN sl : MP!Small(sl[i])
 
 (***************************************************************************)
+(* The local clock as Run sees it (timebase.SystemClock: Now, Epoch,       *)
+(* Sleep).  It is the clock that is being disciplined and it belongs to    *)
+(* the environment: clk.Sleep(SyncInterval) returns after slp half         *)
+(* intervals of real time (2 = on time; never early, anything later: a     *)
+(* stalled process, a suspended host) and meanwhile the reading clk.Now()  *)
+(* is stepped by stp half intervals (forwards or backwards; by the         *)
+(* discipline itself or by an operator), which is what advances            *)
+(* clk.Epoch().  Run reads neither Now() nor Epoch(): `now` and `epoch`    *)
+(* influence nothing below, and the property does not mention them - its   *)
+(* bound is a function of the CONFIGURED interval.  The environment is     *)
+(* spelled out so that the property section is evaluated, and behaviours   *)
+(* are generated, for rounds that follow an arbitrary jump of the clock.   *)
+(***************************************************************************)
+ElapseChoices == Elapse          \* (an operator, so that generators can sample it)
+OnTime == [slp |-> 2, stp |-> 0]
+\* how far the reading moved across the Sleep call, in half intervals
+ReadingDelta(e) == e.slp + e.stp
+
+(***************************************************************************)
 (* State.                                                                  *)
 (***************************************************************************)
 VARIABLES cfg,        \* the Config, the source counts and the clock's drift
@@ -123,16 +144,22 @@ VARIABLES cfg,        \* the Config, the source counts and the clock's drift
           corr,       \* argument of adj.Do
           ndo,        \* adj.Do calls since the last clk.Sleep returned
           adjLog,     \* history: every argument of adj.Do
-          cur,        \* history: this round's outcomes and arrival orders
-          hist        \* history: one record per completed round
+          cur,        \* history: this round's outcomes and arrival orders, and what
+                      \* the clock did during the Sleep call that preceded the round
+          hist,       \* history: one record per completed round
+          now,        \* environment: clk.Now() in half intervals since Run was called
+                      \* (the time the measurements themselves take is left out)
+          epoch       \* environment: clk.Epoch()
 
 vars == <<cfg, phase, round, refSlots, peerSlots, refDone, peerDone, refOff, peerOff,
-          refCorr, peerCorr, refOk, peerOk, corr, ndo, adjLog, cur, hist>>
-\* everything that determines the future (VIEW of the exhaustive configurations)
+          refCorr, peerCorr, refOk, peerOk, corr, ndo, adjLog, cur, hist, now, epoch>>
+\* everything that determines the future (VIEW of the exhaustive configurations);
+\* the clock's reading and epoch do not: no action's effect on the other
+\* variables depends on them
 View == <<cfg, phase, round, refSlots, peerSlots, refDone, peerDone, refOff, peerOff,
           refCorr, peerCorr, refOk, peerOk, corr, ndo>>
 
-NoCur == [ref |-> << >>, rord |-> << >>, peer |-> << >>, pord |-> << >>]
+NoCur == [ref |-> << >>, rord |-> << >>, peer |-> << >>, pord |-> << >>, slp |-> 0, stp |-> 0]
 
 Init ==
   /\ cfg \in Cfgs
@@ -142,6 +169,7 @@ Init ==
   /\ refOff = 0 /\ peerOff = 0 /\ refCorr = 0 /\ peerCorr = 0 /\ corr = 0
   /\ refOk = FALSE /\ peerOk = FALSE
   /\ ndo = 0 /\ adjLog = << >> /\ cur = NoCur /\ hist = << >>
+  /\ now = 0 /\ epoch = 0
 
 \* Run's prologue: panics, or allocates the two slices (zero Measurements)
 Boot ==
@@ -152,7 +180,7 @@ Boot ==
           /\ refSlots'  = [i \in 1 .. NSlots(cfg, "ref")  |-> 0]
           /\ peerSlots' = [i \in 1 .. NSlots(cfg, "peer") |-> 0]
   /\ UNCHANGED <<cfg, round, refDone, peerDone, refOff, peerOff, refCorr, peerCorr,
-                 refOk, peerOk, corr, ndo, adjLog, cur, hist>>
+                 refOk, peerOk, corr, ndo, adjLog, cur, hist, now, epoch>>
 
 \* One of the round's two goroutines, from `go func()` to the channel send.
 \* The two share no data, so each is one atomic step and they may run in
@@ -170,7 +198,7 @@ MeasureRef ==
                /\ cur' = [cur EXCEPT !.ref = o, !.rord = ord]
   /\ refDone' = TRUE
   /\ UNCHANGED <<cfg, phase, round, peerSlots, peerDone, peerOff, refCorr, peerCorr,
-                 refOk, peerOk, corr, ndo, adjLog, hist>>
+                 refOk, peerOk, corr, ndo, adjLog, hist, now, epoch>>
 
 MeasurePeer ==
   /\ phase = "measure" /\ ~peerDone
@@ -183,14 +211,14 @@ MeasurePeer ==
                /\ cur' = [cur EXCEPT !.peer = o, !.pord = ord]
   /\ peerDone' = TRUE
   /\ UNCHANGED <<cfg, phase, round, refSlots, refDone, refOff, refCorr, peerCorr,
-                 refOk, peerOk, corr, ndo, adjLog, hist>>
+                 refOk, peerOk, corr, ndo, adjLog, hist, now, epoch>>
 
 \* refClkOff, peerClkOff := <-refClkOffCh, <-peerClkOffCh
 Receive ==
   /\ phase = "measure" /\ refDone /\ peerDone
   /\ phase' = "combine"
   /\ UNCHANGED <<cfg, round, refSlots, peerSlots, refDone, peerDone, refOff, peerOff,
-                 refCorr, peerCorr, refOk, peerOk, corr, ndo, adjLog, cur, hist>>
+                 refCorr, peerCorr, refOk, peerOk, corr, ndo, adjLog, cur, hist, now, epoch>>
 
 \* clamps, cutoff test, switch
 Combine ==
@@ -202,7 +230,7 @@ Combine ==
   /\ corr' = CorrOf(cfg, refOff, peerOff)
   /\ phase' = "adjusting"
   /\ UNCHANGED <<cfg, round, refSlots, peerSlots, refDone, peerDone, refOff, peerOff,
-                 ndo, adjLog, cur, hist>>
+                 ndo, adjLog, cur, hist, now, epoch>>
 
 \* adj.Do(corr)
 Adjust ==
@@ -211,7 +239,7 @@ Adjust ==
   /\ adjLog' = Append(adjLog, corr)
   /\ phase' = "adjusted"
   /\ UNCHANGED <<cfg, round, refSlots, peerSlots, refDone, peerDone, refOff, peerOff,
-                 refCorr, peerCorr, refOk, peerOk, corr, cur, hist>>
+                 refCorr, peerCorr, refOk, peerOk, corr, cur, hist, now, epoch>>
 
 \* clk.Sleep(cfg.SyncInterval) is entered
 Sleep ==
@@ -219,18 +247,24 @@ Sleep ==
   /\ phase' = "asleep"
   /\ round' = round + 1
   /\ hist' = Append(hist, [ref |-> cur.ref, rord |-> cur.rord, peer |-> cur.peer, pord |-> cur.pord,
+                           slp |-> cur.slp, stp |-> cur.stp,
                            rs |-> refSlots, ps |-> peerSlots, ro |-> refOff, po |-> peerOff,
                            rc |-> refCorr, pc |-> peerCorr, corr |-> corr,
                            small |-> AllSmall(refSlots) /\ AllSmall(peerSlots)])
   /\ UNCHANGED <<cfg, refSlots, peerSlots, refDone, peerDone, refOff, peerOff,
-                 refCorr, peerCorr, refOk, peerOk, corr, ndo, adjLog, cur>>
+                 refCorr, peerCorr, refOk, peerOk, corr, ndo, adjLog, cur, now, epoch>>
 
-\* clk.Sleep returns; next iteration of `for`
+\* clk.Sleep returns - whenever the environment lets it, with whatever it did
+\* to the clock's reading meanwhile; next iteration of `for`
 Wake ==
   /\ phase = "asleep" /\ round < MaxRound
   /\ phase' = "measure"
   /\ refDone' = FALSE /\ peerDone' = FALSE
-  /\ ndo' = 0 /\ cur' = NoCur
+  /\ ndo' = 0
+  /\ \E e \in ElapseChoices :
+       /\ cur' = [NoCur EXCEPT !.slp = e.slp, !.stp = e.stp]
+       /\ now' = now + ReadingDelta(e)
+       /\ epoch' = IF e.stp # 0 THEN epoch + 1 ELSE epoch
   \* refClkOff, peerClkOff, refClkCorr, peerClkCorr, corr are locals of the loop body
   /\ refOff' = 0 /\ peerOff' = 0 /\ refCorr' = 0 /\ peerCorr' = 0 /\ corr' = 0
   /\ refOk' = FALSE /\ peerOk' = FALSE
@@ -290,6 +324,8 @@ Refused == StatedInadmissible(cfg) => phase \in {"boot", "panicked"}
 TypeOK ==
   /\ phase \in {"boot", "panicked", "measure", "combine", "adjusting", "adjusted", "asleep"}
   /\ round \in 0 .. MaxRound
+  /\ now \in Int /\ epoch \in 0 .. MaxRound
+  /\ \A e \in ElapseChoices : e.slp >= 2          \* Sleep does not return early
   /\ \A i \in DOMAIN refSlots : refSlots[i] \in MP!Word
   /\ \A i \in DOMAIN peerSlots : peerSlots[i] \in MP!Word
   /\ corr \in MP!Word /\ refOff \in MP!Word /\ peerOff \in MP!Word
